@@ -247,7 +247,15 @@ def run_case(case):
         ci = case["seed"] % 1000                                            # ordinal of the file-mode case within the run
         fkind = ["NP2.1", "3B2", "NP2.4", "3B2"][ci % 4]                  # every generation (its own volts-per-bit path) ...
         fnsync = [0, 1, 1, 0][ci % 4]                                       # ... and recordings saved without the sync channel
-        rec = G.make(rng, kind=fkind, sites=G.draw_sites(rng, fkind, n, "dense"), ns=ns, raw=np.zeros((1, 1), np.int16), nsync=fnsync)
+        fgains = None
+        fsites = G.draw_sites(rng, fkind, n, "dense")
+        if fkind == "3B2":
+            # NP1: the sites saved in an order that is not the probe order, and AP gains that differ from channel to channel (250 / 500 / 1000)
+            fsites = G.draw_sites(rng, fkind, n, "random")
+            fgains = np.c_[rng.choice([250, 500, 1000], 384), np.full(384, 250)]
+        rec = G.make(rng, kind=fkind, sites=fsites, gains=fgains, ns=ns, raw=np.zeros((1, 1), np.int16), nsync=fnsync)
+        if fkind == "3B2":
+            res.count("file_mode_permuted_mixed_gains", int(not np.array_equal(rec.order, np.arange(n)) and len(np.unique(rec.s2v[:n])) > 1))
         s2v = rec.s2v[:n]
         raw = np.zeros((ns, n + fnsync), np.int16)
         starts = [int(t0 * fs) for t0 in np.linspace(0, ns / fs - bdur, nb)]
